@@ -1,3 +1,7 @@
 import Lockable.Model.Core
 import Lockable.Model.Api
 import Lockable.Model.Proto
+import Lockable.Proofs.Inv
+import Lockable.Proofs.Steps
+import Lockable.Proofs.Steps2
+import Lockable.Proofs.Steps3
